@@ -203,6 +203,14 @@ replace %s => %s
 		must(os.MkdirAll(filepath.Dir(filepath.Join(rdir, "scen", f)), 0755))
 		must(os.WriteFile(filepath.Join(rdir, "scen", f), bytes.ReplaceAll(data, []byte("go-restli/v2/"), []byte("go-restli/")), 0644))
 	}
+	// S4 (client -> simulated HTTP -> server) against the root module: the same sources, transformed
+	s4files, _ := filepath.Glob(filepath.Join(verifDir, "scen", "s4", "*.go"))
+	must(os.MkdirAll(filepath.Join(rdir, "scen", "s4"), 0755))
+	for _, f := range s4files {
+		data, err := os.ReadFile(f)
+		must(err)
+		must(os.WriteFile(filepath.Join(rdir, "scen", "s4", filepath.Base(f)), rootTransform(data), 0644))
+	}
 	// back end B lives in its own module: testing/synctest needs the go1.26.8 toolchain and the
 	// timer semantics that come with a go >= 1.23 main module
 	bdir := filepath.Join(scratch, "b")
@@ -279,7 +287,47 @@ func must(err error) {
 	}
 }
 
-var familyDone bool
+// rootTransform turns a scenario source written against the v2 module into one against the root module: import
+// paths, the place of the Rest.li data records (package restlidata instead of .../generated/com/linkedin/restli/common)
+// and the root module's spelling of CollectionMetadata.
+func rootTransform(data []byte) []byte {
+	data = bytes.ReplaceAll(data, []byte(`"github.com/PapaCharlie/go-restli/v2/restlidata/generated/com/linkedin/restli/common"`), []byte(`common "github.com/PapaCharlie/go-restli/restlidata"`))
+	data = bytes.ReplaceAll(data, []byte("common common \""), []byte("common \""))
+	data = bytes.ReplaceAll(data, []byte("go-restli/v2/"), []byte("go-restli/"))
+	data = bytes.ReplaceAll(data, []byte("common.CollectionMetadata"), []byte("common.CollectionMedata"))
+	data = bytes.ReplaceAll(data, []byte("common.NewCollectionMetadataWithDefaultValues"), []byte("common.NewCollectionMedataWithDefaultValues"))
+	return data
+}
+
+var familyDone, familyRootDone bool
+
+// ensureFamilyRoot: the same family generated by the ROOT module's generator (built from /repo's working tree) into
+// the root scratch module.
+func ensureFamilyRoot() {
+	if familyRootDone {
+		return
+	}
+	t0 := time.Now()
+	rdir := filepath.Join(scratch, "r")
+	src, err := os.ReadFile(filepath.Join(verifDir, "overlayfiles", "rootdriver", "main.go.txt"))
+	must(err)
+	must(os.MkdirAll(filepath.Join(rdir, "rootdriver"), 0755))
+	must(os.WriteFile(filepath.Join(rdir, "rootdriver", "main.go"), src, 0644))
+	drv := filepath.Join(rdir, "rootdriver.bin")
+	out, err := run(rdir, goEnv, "go", "build", "-o", drv, "./rootdriver")
+	if err != nil {
+		die(2, "building the root module's generator from /repo failed (exit 2: build trouble): %v\n%s", err, out)
+	}
+	out, err = run(rdir, goEnv, drv, filepath.Join(verifDir, "family", "root.spec.json"), filepath.Join(rdir, "fam"), "vscratch/fam")
+	if err != nil {
+		die(2, "generating the binding family with the root module's generator failed (exit 2): %v\n%s", err, lastLines(out, 30))
+	}
+	glue, err := os.ReadFile(filepath.Join(verifDir, "family", "glue.go.txt"))
+	must(err)
+	must(os.WriteFile(filepath.Join(rdir, "scen", "s4", "glue.go"), rootTransform(glue), 0644))
+	familyRootDone = true
+	logf("generated binding family (root module) in %.1fs", time.Since(t0).Seconds())
+}
 
 // ensureFamily generates the binding family into the scratch module with the generator
 // built from /repo's current working tree, and installs the glue file.
@@ -379,7 +427,11 @@ func buildScenario(b *Batch) *builtBin {
 		b.Prepare(overlay)
 	}
 	if b.Family {
-		ensureFamily()
+		if b.Module == "root" {
+			ensureFamilyRoot()
+		} else {
+			ensureFamily()
+		}
 	}
 	gensimPath := ""
 	if b.GenSim {
@@ -436,7 +488,7 @@ func workerEnv(b *Batch, prop string, extra ...string) []string {
 	if b.RaceProp != "" {
 		own += "," + b.RaceProp
 	}
-	env = append(env, "VW_SCEN="+b.Scen, "VW_CFG="+b.Cfg, "VW_PROP="+prop, "VW_OWN="+own+",C17")
+	env = append(env, "VW_SCEN="+b.Scen, "VW_CFG="+b.Cfg, "VW_PROP="+prop, "VW_OWN="+own+",C17", "VW_MODULE="+b.Module)
 	if b.Bubble {
 		// one P, no asynchronous preemption, no garbage collector: nothing but the program's own blocking
 		// decides which goroutine runs next inside a bubble
@@ -952,6 +1004,12 @@ func main() {
 	var knownPrinted = map[string]bool{}
 	for bi := range spec.Batches {
 		b := &spec.Batches[bi]
+		if os.Getenv("VCHECK_FORCE_ROOT") != "" && b.Pkg == "scen/s4" && b.Module == "" {
+			b.Module = "root" // exploration aid: run a property's S4 batches against the root module
+		}
+		if only := os.Getenv("VCHECK_ONLY"); only != "" && !strings.Contains(b.Module+":"+b.Scen+":"+b.Cfg, only) {
+			continue // debugging aid: run only the batches whose "module:scenario:cfg" contains the given text
+		}
 		bb := buildScenario(b)
 		runs := b.Quick
 		secs := b.QuickSecs
@@ -1146,6 +1204,13 @@ func main() {
 	os.Exit(exit)
 }
 
+func moduleName(b *Batch) string {
+	if b.Module == "" {
+		return "v2"
+	}
+	return b.Module
+}
+
 func writeReplay(prop string, b *Batch, seed uint64, runIdx int, v *Violation, choices []uint32, trace []Event, orig int, raceLog string) string {
 	dir := filepath.Join(verifDir, "replays")
 	os.MkdirAll(dir, 0755)
@@ -1155,7 +1220,7 @@ func writeReplay(prop string, b *Batch, seed uint64, runIdx int, v *Violation, c
 	if len(trace) > 4000 {
 		trace = trace[len(trace)-4000:]
 	}
-	rf := ReplayFile{Property: v.Property, Oracle: v.Oracle, Signature: v.Signature, Scenario: b.Scen, Pkg: b.Pkg, Cfg: b.Cfg, Module: "v2",
+	rf := ReplayFile{Property: v.Property, Oracle: v.Oracle, Signature: v.Signature, Scenario: b.Scen, Pkg: b.Pkg, Cfg: b.Cfg, Module: moduleName(b),
 		Seed: seed, Run: runIdx, Choices: choices, Original: orig, Trace: trace, Message: v.Message, RaceLog: firstLines(raceLog, 120),
 		Toolchain: strings.TrimSpace(tc), RepoHead: strings.TrimSpace(head)}
 	data, _ := json.MarshalIndent(rf, "", " ")
@@ -1174,15 +1239,28 @@ func doReplay(prop string, spec *PropSpec, path string) int {
 	}
 	var b *Batch
 	for i := range spec.Batches {
-		if spec.Batches[i].Scen == rf.Scenario && spec.Batches[i].Cfg == rf.Cfg {
+		if spec.Batches[i].Scen == rf.Scenario && spec.Batches[i].Cfg == rf.Cfg && moduleName(&spec.Batches[i]) == rf.Module {
 			b = &spec.Batches[i]
 		}
 	}
 	if b == nil {
 		for i := range spec.Batches {
+			if spec.Batches[i].Scen == rf.Scenario && moduleName(&spec.Batches[i]) == rf.Module {
+				bb := spec.Batches[i]
+				bb.Cfg = rf.Cfg
+				b = &bb
+			}
+		}
+	}
+	if b == nil {
+		// a replay file of another module's batch of the same scenario (exploration runs)
+		for i := range spec.Batches {
 			if spec.Batches[i].Scen == rf.Scenario {
 				bb := spec.Batches[i]
 				bb.Cfg = rf.Cfg
+				if rf.Module == "root" {
+					bb.Module = "root"
+				}
 				b = &bb
 			}
 		}
